@@ -76,6 +76,15 @@ PROPS = {
         note="Determinism in the seed is checked by running twice (the model is a relation, not a function of the seed). Progress (some batch is always allowed while items remain) is not yet a theorem; termination of the implementation is enforced by the harness watchdog.",
         min_nontrivial={"quick": 500, "thorough": 5000},
     ),
+    "C07": dict(
+        anchors=[("src/data/loading.rs", r"fn next_idx\(&mut self\)"), ("src/data/loading.rs", r"impl Iterator for MultiTrainDataGenerator"), ("src/data/loading.rs", r"impl MultiTrainDataGenerator \{")],
+        rule="vectors of source lengths (1-6 sources, lengths 0-30, ~15% empty sources, single source, unequal lengths) x 3 strategies x seeds, realised as temporary jsonl files whose lines carry their identity '<src>-<k>' and read through train_data_generator_from_jsonl; sequential / interleaved: exact output sequence (item, source tag); weighted: the observed tag sequence must be a merge of the sources that exhausts all of them; every next() under a watchdog; thorough adds all length vectors of 1-4 sources with lengths 0-4",
+        exhaustive={"thorough": "all length vectors of 1..4 sources with lengths 0..4 (780) x 3 strategies"},
+        trusted=["WeightedIndex / ChaCha8: the weighted draws are choices; the model admits every merge", "file system and serde_json (jsonl reading)"],
+        claim="Model of MultiTrainDataGenerator::next / next_idx (interleaved as repaired) with explicit finished flags; exact correspondence for sequential and interleaved, relational (merge) for weighted, constructor error for weighted with an empty source. Oracle: every item exactly once, per-source order, correct tags, strategy order (non-decreasing tags / round robin rows), reproducibility from the seed, termination (watchdog). Theorems (mgRun_merge, per-source order, sequential_order, interleaved_round_robin) are being proved against this model; those present in Props/C07.lean are audited on every run.",
+        note="D5 (interleaved never returns once one source is left) was found by this check (watchdog) and repaired by a fix: commit.",
+        min_nontrivial={"quick": 200, "thorough": 2000},
+    ),
     "C10": dict(
         anchors=[("src/whitespace.rs", r"pub fn operations\("), ("src/whitespace.rs", r"pub fn repair\(")],
         rule="pairs built from one non-whitespace skeleton with independent spacings (70%), non-clean / unequal pairs (30%), arbitrary operation sequences for repair; both modes; thorough adds all pairs of strings of length <= 4 over {a,b,space,U+3000}",
